@@ -78,6 +78,9 @@ def call(op, args, pool, rng):
         return penman.encode(a[0], model=m)
     if op == 'decode_encode':
         return penman.decode(penman.encode(a[0], model=m), model=m)
+    if op == 'relayout':
+        # the same triples under another layout: other markers on (mostly) the same triples
+        return layout.interpret(layout.reconfigure(a[0], model=m, key=m.canonical_order), m)
     if op == 'copy_graph':
         import copy
         return copy.deepcopy(a[0])
@@ -101,6 +104,10 @@ def call(op, args, pool, rng):
         return [layout.node_contexts(g), [layout.appears_inverted(g, t) for t in g.triples], [layout.get_pushed_variable(g, t) for t in g.triples]]
     if op == 'alignments':
         return [surface.alignments(a[0]), surface.role_alignments(a[0])]
+    if op == 'triples':
+        codec = penman.PENMANCodec(model=m)
+        ts = [t for t in a[0].triples if isinstance(t[0], str) and isinstance(t[2], str)]
+        return codec.parse_triples(codec.format_triples(ts, indent=bool(len(ts) % 2)))
     if op == 'tree_nodes':
         return [[n[0] for n in a[0].nodes()], [list(p) for p, _ in a[0].walk()]]
     if op == 'union':
@@ -126,8 +133,26 @@ def call(op, args, pool, rng):
     raise ValueError(op)
 
 
-POOLED = {'interpret', 'configure', 'reconfigure', 'decode_encode', 'copy_graph', 'canonicalize_roles', 'reify_edges', 'dereify_edges',
+InPlaceOps = {'union_inplace', 'difference_inplace', 'set_top', 'rearrange', 'reset_variables'}
+POOLED = {'interpret', 'configure', 'reconfigure', 'decode_encode', 'copy_graph', 'relayout', 'canonicalize_roles', 'reify_edges', 'dereify_edges',
           'reify_attributes', 'indicate_branches', 'union', 'difference'}
+
+
+def scribble(x):
+    """What a caller may do to a value it was handed: change it in place, all the way down."""
+    if isinstance(x, list):
+        for y in x:
+            scribble(y)
+        x.append(('scribbled', ':by', 'the-caller'))
+        if len(x) > 1:
+            x[0] = x[-1]
+    elif isinstance(x, dict):
+        for y in list(x.values()):
+            scribble(y)
+        x['scribbled'] = ['by the caller']
+    elif isinstance(x, set):
+        x.clear()
+        x.add('scribbled')
 
 
 def replay(h, pool=None):
@@ -136,6 +161,7 @@ def replay(h, pool=None):
     steps = []
     for c in h['hist']:
         before = [proj(o) for o in pool]
+        again = None
         rng.seed(json.dumps(c))
         try:
             ok, r = dr.guarded(call, c['op'], c['args'], pool, rng)
@@ -147,12 +173,20 @@ def replay(h, pool=None):
                 res = proj(r)
             else:
                 res = json.dumps(['value', plain(r)], ensure_ascii=True)
+                if not InPlaceOps.__contains__(c['op']):
+                    # the caller owns what it was handed: after it has changed that value in place, the same call gives the same answer
+                    scribble(r)
+                    try:
+                        ok2, r2 = dr.guarded(call, c['op'], c['args'], pool, rng)
+                    except Exception as e:  # noqa
+                        ok2, r2 = False, e
+                    again = json.dumps(['value', plain(r2)], ensure_ascii=True) if ok2 else 'EXC:' + type(r2).__name__
         else:
             res = 'EXC:' + type(r).__name__
             if c['op'] in POOLED:
                 pool.append(penman.Graph() if dr_result_type(c['op']) == 'graph' else penman.Tree(('x', [])))
         after = [proj(o) for o in pool]
-        steps.append({'before': before, 'after': after, 'result': res})
+        steps.append({'before': before, 'after': after, 'result': res, 'again': again if again is not None else res})
     return steps
 
 
